@@ -273,3 +273,12 @@ STANDINS = [standins.c05_tables]
 
 from . import C05init     # noqa: E402
 UNITS = UNITS + C05init.UNITS      # coupling invariant of ThermochemIncomplete (constructor / _setup_correlation), default-table frame
+
+from . import C13     # noqa: E402
+for _u in C13.UNITS:
+    if _u.name.startswith('ThermochemIncomplete.update['):
+        # update() must PRESERVE the coupling invariant (delegate rebuilt from the merged data): correlations assembled by merges are
+        # correlations with data too
+        if getattr(_u, 'world_factory', None) is None:
+            _u.world_factory = C13.world
+        UNITS.append(_u)
